@@ -166,6 +166,22 @@ fn build(p: &Program, order: &[usize]) -> (Library, Vec<Ptr<Instance>>) {
     for &i in order {
         parent.instances.push(insts[i].clone());
     }
+    // the same instance object listed a second time, and also entered as a placeable (harmless duplicates that real builders produce)
+    if p.specs.len() % 3 == 0 && !order.is_empty() {
+        parent.instances.push(insts[order[0]].clone());
+        parent.places.push(Placeable::Instance(insts[order[order.len() - 1]].clone()));
+    }
+    // a sub-cell that is NOT registered in the library's cell list, reachable only through an instance of it, with a relative
+    // placement of its own (hierarchies built top-down with Ptr::new, cells shared in from another library)
+    if p.specs.len() % 2 == 0 {
+        let mut row = Layout::new("row", 0, Outline::rect(5_000, 5_000).unwrap());
+        let r0 = Ptr::new(Instance { inst_name: "r0".into(), cell: cells[0].clone(), loc: Place::Abs(Xy::new(PrimPitches::x(5), PrimPitches::y(5))), reflect_horiz: false, reflect_vert: false });
+        let r1 = Ptr::new(Instance { inst_name: "r1".into(), cell: cells[0].clone(), loc: Place::Rel(RelativePlace { to: Placeable::Instance(r0.clone()), side: Side::Right, align: Align::Side(Side::Bottom), sep: Separation::new(None, None, None) }), reflect_horiz: false, reflect_vert: false });
+        row.instances.push(r1);
+        row.instances.push(r0);
+        let row: Ptr<Cell> = Ptr::new(Cell::from(row));
+        parent.instances.add(Instance { inst_name: "rowinst".into(), cell: row, loc: Place::Abs(Xy::new(PrimPitches::x(3_000), PrimPitches::y(3_000))), reflect_horiz: false, reflect_vert: false });
+    }
     lib.cells.add(parent);
     (lib, insts)
 }
@@ -240,6 +256,28 @@ impl C09 {
         }
         for i in lay.instances.iter() {
             let i = i.read().unwrap();
+            if i.inst_name == "rowinst" {
+                // the unregistered sub-cell must have been placed too: r1 to the right of r0, bottom-aligned
+                let row = i.cell.read().unwrap();
+                let want_r1 = (5 + p.sizes[0].0, 5);
+                for ri in row.layout.as_ref().unwrap().instances.iter() {
+                    let ri = ri.read().unwrap();
+                    match &ri.loc {
+                        Place::Abs(xy) => {
+                            if ri.inst_name == "r1" && (xy.x.num as i64, xy.y.num as i64) != want_r1 {
+                                cx.violation(&format!("{}|unregistered-subcell|wrong-location", class), json!({"want": want_r1, "got": [xy.x.num, xy.y.num]}));
+                                return None;
+                            }
+                        }
+                        Place::Rel(_) => {
+                            cx.violation(&format!("{}|unregistered-subcell|instance-left-relative", class), json!({"instance": ri.inst_name}));
+                            return None;
+                        }
+                    }
+                }
+                cx.count("unregistered_subcells_placed");
+                continue;
+            }
             match &i.loc {
                 Place::Abs(xy) => {
                     got.insert(i.inst_name.clone(), (xy.x.num as i64, xy.y.num as i64));
